@@ -100,7 +100,7 @@ def run_tie(ctx, tag="tie", tier=None):
 
 
 def run(ctx):
-    gen_ok = ctx.gen_coq(["PrimTableGen"])
+    gen_ok = ctx.gen_coq(["PrimTableGen", "StackResetGen"])
     if gen_ok:
         ctx.coq_prove("C06")
     out_dir = run_tie(ctx)
